@@ -1,6 +1,6 @@
 (* Properties_C06.v — arrays are bounds-checked total maps with independent elements.
    Only statements, `exact`, and Print Assumptions. *)
-From PE2 Require Import Arrays Lemmas_Arrays.
+From PE2 Require Import Arrays Lemmas_Arrays Eval Lemmas_DeepCopy Lemmas_HeapInv.
 Local Open Scope Z_scope.
 
 (* an in-bounds index tuple addresses a cell inside the element vector *)
@@ -34,6 +34,14 @@ Print Assumptions C06_get_set_other.
 Theorem C06_assign_requires_same_bounds : forall a b, dims_eqb a b = true <-> a = b.
 Proof. exact dims_eqb_eq. Qed.
 Print Assumptions C06_assign_requires_same_bounds.
+
+(* over the whole evaluator: an array, once declared, never changes -- its bounds, its element type and the identity of its
+   element cells are fixed whatever the program does afterwards (only the payloads of the element cells change), and it never
+   disappears; so an index tuple denotes the same element cell for the lifetime of the array *)
+Theorem C06_array_structure_is_fixed : forall ped repl lim fuel bl c s id a, hb s -> nm_get id (s_arrs s) = Some a ->
+  nm_get id (s_arrs (snd (run_block ped repl lim fuel bl c s))) = Some a.
+Proof. exact arrays_are_immutable. Qed.
+Print Assumptions C06_array_structure_is_fixed.
 
 (* non-vacuity: a 3-dimensional shape with negative bounds and an in-bounds tuple *)
 Example C06_shape_example :
